@@ -41,16 +41,16 @@ func c05GenFx(r *verifh.Rng) []verifh.Section {
 	for i := 0; i < verifh.Scale(6, 200); i++ {
 		n := r.Pick(1, 2, 3, r.Range(1, 8), 16)
 		secs = append(secs, verifh.Section{Cfg: fmt.Sprintf("kind=fx mode=conc n=%d", n), Ops: []string{
-			fmt.Sprintf("run items=%d pan=%d rs=%d", r.Range(1, verifh.Scale(200, 600)), r.Pick(0, 10, 40), r.Intn(1<<30)),
-			fmt.Sprintf("run items=%d pan=%d rs=%d", r.Range(1, 60), 100, r.Intn(1<<30)),
+			fmt.Sprintf("run items=%d pan=%d exits=%s rs=%d", r.Range(1, verifh.Scale(200, 600)), r.Pick(0, 10, 40), r.PickS("s", "seg", "e"), r.Intn(1<<30)),
+			fmt.Sprintf("run items=%d pan=%d exits=%s rs=%d", r.Range(1, 60), 100, r.PickS("seg", "g", "se"), r.Intn(1<<30)),
 		}})
 	}
 	for i := 0; i < verifh.Scale(6, 200); i++ {
 		n := r.Pick(1, 2, 3, r.Range(1, 8), 16)
 		secs = append(secs, verifh.Section{Cfg: fmt.Sprintf("kind=mr mode=conc n=%d", n), Ops: []string{
-			fmt.Sprintf("run api=foreach items=%d pan=%d rs=%d", r.Range(1, verifh.Scale(200, 600)), r.Pick(0, 0, 5), r.Intn(1<<30)),
+			fmt.Sprintf("run api=foreach items=%d pan=%d exits=%s rs=%d", r.Range(1, verifh.Scale(200, 600)), r.Pick(0, 0, 5), r.PickS("s", "g", "eg"), r.Intn(1<<30)),
 			fmt.Sprintf("run api=void items=%d pan=0 rs=%d", r.Range(1, verifh.Scale(200, 600)), r.Intn(1<<30)),
-			fmt.Sprintf("run api=foreach items=%d pan=%d rs=%d", r.Range(1, 60), r.Pick(30, 100), r.Intn(1<<30)),
+			fmt.Sprintf("run api=foreach items=%d pan=%d exits=%s rs=%d", r.Range(1, 60), r.Pick(30, 100), r.PickS("seg", "g", "e"), r.Intn(1<<30)),
 		}})
 	}
 	secs = append(secs, c05GenOptSeqs(r)...)
@@ -125,7 +125,7 @@ func c05GenOptSeqs(r *verifh.Rng) []verifh.Section {
 				if lib == "mr" {
 					pan = r.Pick(0, 0, 0, 10)
 				}
-				ops = append(ops, fmt.Sprintf("run opt=%s api=%s items=%d pan=%d rs=%d", opt, apis[r.Intn(len(apis))], items, pan, r.Intn(1<<30)))
+				ops = append(ops, fmt.Sprintf("run opt=%s api=%s items=%d pan=%d exits=%s rs=%d", opt, apis[r.Intn(len(apis))], items, pan, r.PickS("s", "seg", "g"), r.Intn(1<<30)))
 			}
 			secs = append(secs, verifh.Section{Cfg: fmt.Sprintf("kind=%sopts mode=conc", lib), Ops: ops})
 		}
@@ -159,7 +159,7 @@ func c05StartOptSeq(cfg verifh.Cfg) (func(op []string) string, func()) {
 		base := runtime.NumGoroutine()
 		sat := c5.NewSaturator()
 		body := func(item int) {
-			sat.Body(verifh.NewRng(uint64(p.Int("rs", 1))*1000003+uint64(item)), item, pan)
+			sat.BodyK(verifh.NewRng(uint64(p.Int("rs", 1))*1000003+uint64(item)), item, pan, p.Str("exits", "s"))
 		}
 		full := func() bool { return c5.BlockedIn("fx.Stream.walkLimited", "chan send") }
 		if lib == "mr" {
@@ -254,7 +254,7 @@ func c05StartWorkers(cfg verifh.Cfg) (func(op []string) string, func()) {
 		h := c5.NewHist(0)
 		ga := &c5.Gauge{}
 		body := func(item int) {
-			c5.Inside(h, ga, verifh.NewRng(uint64(p.Int("rs", 1))*1000003+uint64(item)), -1, item, pan)
+			c5.InsideK(h, ga, verifh.NewRng(uint64(p.Int("rs", 1))*1000003+uint64(item)), -1, item, pan, p.Str("exits", "s"))
 		}
 		ended := c5.Watchdog(c5.StuckAfter, func() {
 			defer func() { _ = recover() }() // mr re-panics a mapper's panic in the caller
